@@ -9,6 +9,7 @@ pub mod c02;
 pub mod c03;
 pub mod c04;
 pub mod c05;
+pub mod c06;
 pub mod c07;
 pub mod c08;
 pub mod c09;
@@ -19,7 +20,7 @@ pub mod c16;
 pub mod c17;
 
 pub fn all() -> Vec<PropertyDef> {
-    vec![c01::def(), c02::def(), c03::def(), c04::def(), c05::def(), c07::def(), c08::def(), c09::def(), c10::def(), c13::def(), c14::def(), c16::def(), c17::def()]
+    vec![c01::def(), c02::def(), c03::def(), c04::def(), c05::def(), c06::def(), c07::def(), c08::def(), c09::def(), c10::def(), c13::def(), c14::def(), c16::def(), c17::def()]
 }
 
 // ---- shared: simulation parameters <-> JSON ---------------------------------------------------
